@@ -44,7 +44,7 @@ CHECKS = {
         "ref": "DESIGN.md 5 C09, 10 seg",
     },
     "C15": {
-        "text": "Kernel-checked theorems (segment level): every entry of every acknowledged batch is returned by the tail reader and, after sealing, by the sealed reader, for every payload length up to MaxEntrySize, every batch position and every size limit (read_frame's 64 KiB first read and exact second read are modelled); a batch with an entry above MaxEntrySize is refused without side effect; no size up to MaxEntrySize is refused. Tied to the code by the `sizes` stream over all boundary neighbourhoods; 64 MiB +- 1 run on the implementation in the thorough tier, which also drives wal.StoreLogs/GetLog/Close/Open with payloads whose encoding crosses MaxEntrySize and with a batch above 64 MiB that must survive a reopen (implementation-only search cases).",
+        "text": "Kernel-checked theorems (segment level): every entry of every acknowledged batch is returned by the tail reader and, after sealing, by the sealed reader, for every payload length up to MaxEntrySize, every batch position and every size limit (read_frame's 64 KiB first read and exact second read are modelled); a batch with an entry above MaxEntrySize is refused without side effect; no size up to MaxEntrySize is refused. Tied to the code by the `sizes` stream over all boundary neighbourhoods; 64 MiB +- 1 run on the implementation in the thorough tier; both tiers also drive wal.StoreLogs/GetLog/Close/Open with payloads whose encoding crosses MaxEntrySize and with a batch above 64 MiB that must survive a reopen (implementation-only search cases).",
         "note": "L1 form (one segment file); guard file < 2^32 bytes.",
         "technique": "Rocq proof (reader/writer round trip over all sizes) + model/implementation correspondence",
         "ref": "DESIGN.md 5 C15, 10 seg",
